@@ -64,10 +64,14 @@ def role_of(prog, key, _cache={}):
                     u = (st.get("rv") or {}).get("use")
                     if isinstance(u, dict) and "k" in u and "str" in u["k"]:
                         lits.add(u["k"]["str"])
+                    if isinstance(u, dict) and "k" in u and "item" in u["k"]:
+                        lits.add(const_str(("item", u["k"]["item"])))  # a named &str constant
                 if blk["term"]["k"] == "call":
                     for a_ in blk["term"]["args"]:
                         if "k" in a_ and "str" in a_["k"]:
                             lits.add(a_["k"]["str"])
+                        if "k" in a_ and "item" in a_["k"]:
+                            lits.add(const_str(("item", a_["k"]["item"])))
         calls_addr = any(t.get("rkey") and t.get("rkey") != key and prog.body(t["rkey"]) is not None and role_of(prog, t["rkey"]) == "address" for _, t in own)
         if any(n.startswith("bech32::decode") for n in names) and b.nargs == 2:
             r = "address"
@@ -185,8 +189,7 @@ def run(R, env):
                     hc = shared.unwrap_payload(v) if v[0] == "payload" else ("none",)
                     hb = shared._body_of_call(prog, hc) if hc[0] == "call" else None
                     if hb is not None and len(hc[2]) == 1 and src(hc[2][0]):
-                        oks = [e for e in exits(Ctx(hb)) if e["kind"] == "ok"]
-                        ret_in = bool(oks) and all(norm(e["term"][3][0][2]) == norm(("param", 1, "", "")) or (e["term"][3][0][2][0] == "param" and e["term"][3][0][2][1] == 1) for e in oks)
+                        ret_in = shared.returns_its_input(hb)
                         good = ret_in and channel_checks(R, prog, hb, "C14.R2", src=lambda x: x[0] == "param" and x[1] == 1)
             R.ob("C14.R1", "%s.%s" % (sec, fld), good, "%s.%s <- %s; expected %s(self.%s%s)" % (sec, fld, why, role, inp, (", " + pfx) if pfx else ""), loc=b.loc(bi, si), fn=b.key)
         extra = set(n for _, n, _ in t[3]) - set(ROUTING[sec])
